@@ -146,3 +146,35 @@ GENERATORS.update({
     'nbdime.diffing.snakes.compute_diff_from_snakes': gen_snakes_diff,
     'nbdime.diffing.generic.diff_sequence_multilevel': gen_multilevel,
 })
+
+
+def gen_patch_dict():
+    "dicts over keys {a,b} x values; mapping diffs with pairwise distinct keys over {a,b,c} (well-formed and not)"
+    from nbdime.diff_format import op_add, op_remove, op_replace, op_patch, op_addrange
+    vals = [0, [1], {'x': 0}]
+    objs = [{}]
+    for va in vals:
+        objs.append({'a': va})
+        for vb in vals[:2]:
+            objs.append({'a': va, 'b': vb})
+            objs.append({'b': vb, 'a': va})
+
+    def entries(key):
+        return [None, op_add(key, 7), op_remove(key), op_replace(key, [2]), op_patch(key, [op_addrange(0, [9])]),
+                op_patch(key, [op_add('y', 1)])]
+    for obj in objs:
+        for ea in entries('a'):
+            for eb in entries('b'):
+                for ec in entries('c')[:2]:
+                    for order in (0, 1):
+                        D = [e for e in (ea, eb, ec) if e is not None]
+                        # sub-diffs must fit the type of the value they patch (the assumed contract of `patch` covers well-typed diffs)
+                        if any(e.op == 'patch' and e.key in obj and
+                               not isinstance(obj[e.key], list if e.diff[0].op == 'addrange' else dict) for e in D):
+                            continue
+                        if order:
+                            D.reverse()
+                        yield [copy.deepcopy(obj), copy.deepcopy(D)]
+
+
+GENERATORS['nbdime.patching.patch_dict'] = gen_patch_dict
